@@ -77,10 +77,12 @@ func runC08(p *chk.Prog, r *chk.Report) {
 	c08Dedup(p, r)
 	cidrContainmentRule(p, r)
 	c08Parse(p, r)
+	c08Canonical(p, r)
 	c08Accumulator(p, r)
 	c08Attach(p, r)
 	c08AdvValid(p, r)
 	c08Select(p, r)
+	c08OwnNodes(p, r)
 	c08For(p, r)
 	familyOfRule(p, r)
 }
@@ -1140,4 +1142,146 @@ func nodeSetPair(f *chk.Fn, a, b func(ast.Expr) bool) (types.Object, types.Objec
 		}
 	}
 	return x, y, true
+}
+
+// c08Canonical: the overlap tests of the validation (cidrContainsCIDR / cidrsOverlap) compare networks of equal length
+// by their base address, which is sound for networks in canonical form - host bits zero, mask of the address family -
+// as net.ParseCIDR (its network result) and ipaddr.Summarize produce them. ParseCIDR hands out only those: it does
+// not assemble a network of its own from a written address.
+func c08Canonical(p *chk.Prog, r *chk.Report) {
+	x := r.Rule("CIDR-CANONICAL", "D ownership / value flow", "config.ParseCIDR (helpers expanded) builds no net.IPNet of its own - no composite literal other than {IP: A.Mask(M), Mask: M} or the copy {IP: X.IP, Mask: X.Mask} of one network, no store to the IP or Mask of a network: what it returns are the networks of net.ParseCIDR and ipaddr.Summarize, whose base addresses the overlap tests compare", 1)
+	f := need(x, p, cfgPkg, "", "ParseCIDR")
+	if f == nil {
+		return
+	}
+	isIPNet := func(t types.Type) bool {
+		if t == nil {
+			return false
+		}
+		if pt, ok := t.Underlying().(*types.Pointer); ok {
+			t = pt.Elem()
+		}
+		return types.TypeString(t, nil) == "net.IPNet"
+	}
+	ok, at := true, f.Pos()
+	chk.InspectNoLit(f.Body, func(n ast.Node) bool {
+		switch v := n.(type) {
+		case *ast.CompositeLit:
+			if !isIPNet(f.Info().TypeOf(v)) {
+				return true
+			}
+			var ip, mask ast.Expr
+			for _, el := range v.Elts {
+				if kv, isKV := el.(*ast.KeyValueExpr); isKV {
+					if id, isId := kv.Key.(*ast.Ident); isId {
+						switch id.Name {
+						case "IP":
+							ip = kv.Value
+						case "Mask":
+							mask = kv.Value
+						}
+					}
+				}
+			}
+			canonical := false
+			if ip != nil && mask != nil {
+				if b := f.MatchNew("A.Mask(M)", ip); b != nil && f.SameExpr(b["M"], mask) {
+					canonical = true
+				}
+				// a copy of another network (a prefix of ipaddr.Summarize): both parts of the same one
+				if bi, bm := f.MatchNew("X.IP", ip), f.MatchNew("X.Mask", mask); bi != nil && bm != nil && f.SameExpr(bi["X"], bm["X"]) {
+					canonical = true
+				}
+			}
+			if !canonical {
+				ok, at = false, v.Pos()
+			}
+		case *ast.AssignStmt:
+			for _, l := range v.Lhs {
+				if se, isSel := ast.Unparen(l).(*ast.SelectorExpr); isSel && (se.Sel.Name == "IP" || se.Sel.Name == "Mask") && isIPNet(f.Info().TypeOf(se.X)) {
+					ok, at = false, v.Pos()
+				}
+			}
+		}
+		return true
+	})
+	x.Check("ParseCIDR:networks-not-assembled-by-hand", at, ok, "", "ParseCIDR assembles a net.IPNet itself (from the written address, say): a network whose base address keeps host bits is not recognised as overlapping an equal-length network on the same block, and two pools (or two entries of one pool) covering the same addresses are accepted")
+}
+
+// c08OwnNodes (shared with C10, C04): the node set of an advertisement is worked out from that advertisement's own
+// selectors. A result remembered under a key derived from the selectors (their printed forms joined, say) can belong
+// to a different selector list that prints the same - an OR of two selectors and one selector with both requirements.
+func c08OwnNodes(p *chk.Prog, r *chk.Report) {
+	x := r.Rule("ADV-NODES-OWN", "B value flow", "in config.l2AdvertisementFromCR and config.bgpAdvertisementFromCR (helpers expanded) whatever is stored in the advertisement's Nodes field is, on every path, the result of selectedNodes(.., crdAd.Spec.NodeSelectors) for the resource being converted (possibly copied with maps.Clone) - never a value looked up in a table of earlier results", 2)
+	for _, name := range []string{"l2AdvertisementFromCR", "bgpAdvertisementFromCR"} {
+		f := need(x, p, cfgPkg, "", name)
+		if f == nil {
+			continue
+		}
+		g := f.Graph()
+		cr := isParamIdx(f, 0)
+		var leafOK func(e ast.Expr, at chk.Site, depth int) bool
+		leafOK = func(e ast.Expr, at chk.Site, depth int) bool {
+			e = ast.Unparen(e)
+			if depth <= 0 || e == nil {
+				return false
+			}
+			if b := f.MatchNew("maps.Clone(M)", e); b != nil {
+				return leafOK(b["M"], at, depth-1)
+			}
+			if b := f.MatchWith("selectedNodes(N, CR.Spec.NodeSelectors)", e, chk.H("CR", cr)); b != nil {
+				return true
+			}
+			id, isId := e.(*ast.Ident)
+			if !isId {
+				return false
+			}
+			vals, okv := g.ReachingValues(id, at)
+			if !okv || len(vals) == 0 {
+				return false
+			}
+			for _, v := range vals {
+				rhs := v.Rhs
+				if rhs == nil {
+					// first result of a two-valued call
+					if as, isAs := v.Def.Node.(*ast.AssignStmt); isAs && len(as.Rhs) == 1 && len(as.Lhs) == 2 && f.ObjOf(as.Lhs[0]) == f.ObjOf(id) {
+						rhs = as.Rhs[0]
+					}
+				}
+				if rhs == nil || !leafOK(rhs, v.Def, depth-1) {
+					return false
+				}
+			}
+			return true
+		}
+		n := 0
+		ok, at := true, f.Pos()
+		judge := func(e ast.Expr, node ast.Node) {
+			n++
+			sites := g.Find(func(nd ast.Node) bool { return nd == node })
+			if len(sites) == 0 {
+				// a literal inside a larger statement: the statement that holds it
+				sites = g.Find(func(nd ast.Node) bool { return nd.Pos() <= node.Pos() && node.End() <= nd.End() })
+			}
+			if len(sites) == 0 || !leafOK(e, sites[len(sites)-1], 5) {
+				ok, at = false, node.Pos()
+			}
+		}
+		chk.InspectNoLit(f.Body, func(nd ast.Node) bool {
+			switch v := nd.(type) {
+			case *ast.KeyValueExpr:
+				if id, isId := v.Key.(*ast.Ident); isId && id.Name == "Nodes" {
+					judge(v.Value, v)
+				}
+			case *ast.AssignStmt:
+				for i, l := range v.Lhs {
+					if se, isSel := ast.Unparen(l).(*ast.SelectorExpr); isSel && se.Sel.Name == "Nodes" && len(v.Rhs) == len(v.Lhs) {
+						judge(v.Rhs[i], v)
+					}
+				}
+			}
+			return true
+		})
+		x.Check(name+":nodes-from-own-selectors", at, ok && n >= 1, "", "the advertisement's node set can come from somewhere else than selectedNodes applied to its own node selectors (a table of earlier results keyed by something derived from the selectors): two selector lists that share the key get each other's nodes, and the advertisement applies on nodes its selectors do not match")
+	}
 }
